@@ -43,6 +43,7 @@ type c05World struct {
 	clients []*c05Client
 	nclient int
 	chans   []string
+	mode    string
 	down    map[int]bool
 }
 
@@ -89,14 +90,19 @@ func runC05(c *kernel.Ctx) {
 	line := n >= 3 && t.Chance(1, 3)
 	lic := world.Licenses[2]
 	w := &c05World{c: c, chans: []string{"a/", "b/", "a/b/", "b/a/"}, down: map[int]bool{}}
+	w.mode = []string{"", "", "mqtt"}[t.Choose(3)]
+	if w.mode == "mqtt" {
+		w.chans = append(w.chans, "a/+/", "b/#/")
+	}
 	w.cl = world.NewCluster(c, n, lic, func(i int, o *world.BrokerOpts) {
 		if campaign != "C" && t.Chance(1, 2) {
 			o.StateDir = ":memory:"
 		}
+		o.Matcher = w.mode
 	})
 	defer w.cl.Close()
 	cl := w.cl
-	c.Logf("campaign=%s brokers=%d line=%v", campaign, n, line)
+	c.Logf("campaign=%s brokers=%d line=%v matcher=%q", campaign, n, line, w.mode)
 	if line {
 		for i := 0; i < n; i++ {
 			for j := i + 2; j < n; j++ {
@@ -466,7 +472,7 @@ func (w *c05World) checkDelivery() {
 				}
 				exp := 0
 				for f := range cc.subs {
-					if model.MatchEmitter(model.Levels(f), model.Levels(ch)) {
+					if model.Match(w.mode, model.Levels(f), model.Levels(ch)) {
 						exp = 1
 					}
 				}
